@@ -96,6 +96,8 @@ struct Inner {
     generation: u64,
     /// last decisions (step, site, from, to, forced) for failure reports
     recent: std::collections::VecDeque<(u64, u32, usize, usize, bool)>,
+    /// cooperative fault points only fire while this is set (not during manager set-up)
+    buggify_enabled: bool,
 }
 
 pub struct Sim {
@@ -131,6 +133,7 @@ pub fn sim() -> &'static Sim {
             settling: false,
             generation: 0,
             recent: std::collections::VecDeque::new(),
+            buggify_enabled: false,
         }),
         cv: Condvar::new(),
     })
@@ -448,7 +451,7 @@ impl Sim {
             return false;
         }
         let mut g = self.inner.lock().unwrap();
-        if !g.active {
+        if !g.active || !g.buggify_enabled {
             return false;
         }
         g.buggify_calls += 1;
@@ -507,6 +510,7 @@ impl Sim {
         g.failure = None;
         g.stats = SimStats::default();
         g.cfg = cfg;
+        g.buggify_enabled = false;
         g.active = true;
         g.generation += 1;
         let my_gen = g.generation;
@@ -560,6 +564,10 @@ impl Sim {
             self.spin(0);
         }
         self.inner.lock().unwrap().settling = false;
+    }
+
+    pub fn enable_buggify(&self, on: bool) {
+        self.inner.lock().unwrap().buggify_enabled = on;
     }
 
     /// Spawn a simulated thread running `f`
